@@ -114,7 +114,7 @@ fn read_req(s: &mut UnixStream) -> Option<ClientRequest> {
 fn step(r: PamAuthResponse) -> ClientResponse {
     ClientResponse::PamAuthenticateStepResponse { response: r, session_id: 7 }
 }
-fn reply_for(kind: &str) -> Option<ClientResponse> {
+fn reply_for(kind: &str, slow: bool) -> Option<ClientResponse> {
     Some(match kind {
         "Success" => step(PamAuthResponse::Success),
         "Denied" => step(PamAuthResponse::Denied),
@@ -128,7 +128,7 @@ fn reply_for(kind: &str) -> Option<ClientResponse> {
         "DeviceGrant" => step(PamAuthResponse::DeviceAuthorizationGrant {
             data: DeviceAuthorizationResponse {
                 device_code: "d".into(), user_code: "u".into(), verification_uri: "http://x".into(),
-                verification_uri_complete: None, expires_in: 1, interval: None, message: None,
+                verification_uri_complete: None, expires_in: if slow { 1 } else { 60 }, interval: None, message: None,
             },
         }),
         "Error" => ClientResponse::Error(kanidm_proto::internal::OperationError::InvalidState),
@@ -162,8 +162,12 @@ fn req_kind(r: &ClientRequest) -> &'static str {
 }
 
 /// Scripted daemon: one reply per request, in script order. Returns (requests handled, request kinds).
+fn is_slow(script: &[String]) -> bool {
+    script.iter().any(|k| k == "Disconnect" || k == "Truncated")
+}
 fn daemon(l: UnixListener, script: Vec<String>) -> (usize, Vec<String>) {
     let mut reqs = Vec::new();
+    let slow = is_slow(&script);
     let Ok((mut s, _)) = l.accept() else { return (0, reqs) };
     let mut n = 0;
     for kind in script {
@@ -181,7 +185,7 @@ fn daemon(l: UnixListener, script: Vec<String>) -> (usize, Vec<String>) {
                 break;
             }
             k => {
-                let resp = reply_for(k).expect("reply kind");
+                let resp = reply_for(k, slow).expect("reply kind");
                 let _ = s.write_all(&frame(&serde_json::to_vec(&resp).expect("json")));
             }
         }
@@ -210,7 +214,9 @@ fn run_conn(c: &J, dir: &str, idx: usize) -> J {
         pin: st(c, "pin", "value"), msg: st(c, "msg", "ok"), grant: st(c, "grant", "ok"), pins: Mutex::new(0),
     };
     let opts = ModuleOptions { debug: false, use_first_pass: b(c, "ufp"), ignore_unknown_user: b(c, "iuu") };
-    let res = match DaemonClientBlocking::new(&path, 1) {
+    // the socket timeout only decides HOW LONG the module waits on a daemon that went away; conversations whose
+    // daemon always answers get a generous one so that the result never depends on machine load
+    let res = match DaemonClientBlocking::new(&path, if is_slow(&script) { 1 } else { 60 }) {
         Ok(client) => {
             let r = catch(|| pam_core::sm_authenticate_connected(&h, &opts, OffsetDateTime::UNIX_EPOCH, &client));
             drop(client);
@@ -285,7 +291,7 @@ fn run_dispatch(c: &J, dir: &str, idx: usize) -> J {
     let path = format!("{dir}/d{idx}.sock");
     let cfgp = format!("{dir}/d{idx}.toml");
     let _ = std::fs::remove_file(&path);
-    std::fs::write(&cfgp, format!("sock_path = \"{path}\"\nconn_timeout = 1\n")).expect("cfg");
+    std::fs::write(&cfgp, format!("sock_path = \"{path}\"\nconn_timeout = 30\n")).expect("cfg");
     let d = if up {
         let l = UnixListener::bind(&path).expect("bind");
         let sc = script.clone();
